@@ -69,6 +69,49 @@ func hlist(h *H, xs []common.Uint256) string {
 	return lib.CoqList(r)
 }
 
+// Layout forces where ordinary (change) outputs go relative to the special
+// outputs of the next Special transactions: "first", "between", "last",
+// "around" (first and last), "none"; "" = random.
+var layouts = []string{"first", "between", "last", "around", "none"}
+
+// mixOutputs inserts ordinary outputs among the special ones.
+func (h *H) mixOutputs(special []*ctypes.Output, plain func(k int, v common.Fixed64) *ctypes.Output) []*ctypes.Output {
+	lay := h.Layout
+	if lay == "" {
+		lay = layouts[h.Rng.Intn(len(layouts))]
+	}
+	mk := func() *ctypes.Output {
+		v := common.Fixed64(0)
+		if h.Rng.Bool() {
+			v = common.Fixed64(1 + h.Rng.Intn(50))
+		}
+		return plain(h.Rng.Intn(4), v)
+	}
+	var res []*ctypes.Output
+	switch lay {
+	case "first":
+		res = append([]*ctypes.Output{mk()}, special...)
+	case "last":
+		res = append(append(res, special...), mk())
+	case "around":
+		res = append(append([]*ctypes.Output{mk()}, special...), mk())
+	case "between":
+		if len(special) < 2 {
+			res = append([]*ctypes.Output{mk()}, special...)
+		} else {
+			for i, o := range special {
+				res = append(res, o)
+				if i < len(special)-1 {
+					res = append(res, mk())
+				}
+			}
+		}
+	default:
+		res = special
+	}
+	return res
+}
+
 // Special builds a special transaction of the given kind spending one good
 // output of the view; hashes are the keys it writes.
 //   kinds: withdraw0 withdraw1 withdraw2 retdep proposal review tracking
@@ -86,6 +129,22 @@ func (h *H) Special(kind string, set map[ctypes.OutPoint]uinfo, used map[ctypes.
 	}
 	used[c.op] = true
 	ins := []fixture.In{{Op: c.op, Key: c.u.addr}}
+	extraVal := common.Fixed64(0)
+	if h.Rng.Chance(35) { // a second input, before or after the first
+		for _, x := range sortedCands(set) {
+			if !used[x.op] && x.u.val >= 2000 && !(x.u.cb) {
+				used[x.op] = true
+				e := fixture.In{Op: x.op, Key: x.u.addr}
+				if h.Rng.Bool() {
+					ins = append(ins, e)
+				} else {
+					ins = append([]fixture.In{e}, ins...)
+				}
+				extraVal = x.u.val
+				break
+			}
+		}
+	}
 	plain := func(k int, v common.Fixed64) *ctypes.Output {
 		return &ctypes.Output{AssetID: core.ELAAssetID, Value: v, ProgramHash: h.F.Keys[k].Hash, Type: ctypes.OTNone, Payload: &outputpayload.DefaultOutput{}}
 	}
@@ -94,11 +153,11 @@ func (h *H) Special(kind string, set map[ctypes.OutPoint]uinfo, used map[ctypes.
 	si := &sideInfo{}
 	var tx interfaces.Transaction
 	var err error
-	rest := c.u.val - 300
+	rest := c.u.val + extraVal - 300
 	switch kind {
 	case "withdraw0":
 		pl := &payload.WithdrawFromSideChain{BlockHeight: 1, GenesisBlockAddress: "side", SideChainTransactionHashes: hashes}
-		tx, err = h.F.RawTx(ctypes.WithdrawFromSideChain, payload.WithdrawFromSideChainVersion, pl, ins, []*ctypes.Output{plain(h.Rng.Intn(4), rest)}, tag)
+		tx, err = h.F.RawTx(ctypes.WithdrawFromSideChain, payload.WithdrawFromSideChainVersion, pl, ins, h.mixOutputs([]*ctypes.Output{plain(h.Rng.Intn(4), rest-100)}, plain), tag)
 		si.tx3 = hashes
 		si.coq = fmt.Sprintf("(SWithdraw 0 %s [])", hlist(h, hashes))
 	case "withdraw1", "withdraw2":
@@ -109,16 +168,14 @@ func (h *H) Special(kind string, set map[ctypes.OutPoint]uinfo, used map[ctypes.
 		var outs []*ctypes.Output
 		n := len(hashes)
 		for i, x := range hashes {
-			v := rest / common.Fixed64(n)
+			v := (rest - 100) / common.Fixed64(n)
 			if i == n-1 {
-				v = rest - v*common.Fixed64(n-1)
+				v = (rest - 100) - v*common.Fixed64(n-1)
 			}
 			outs = append(outs, &ctypes.Output{AssetID: core.ELAAssetID, Value: v, ProgramHash: h.F.Keys[h.Rng.Intn(4)].Hash, Type: ctypes.OTWithdrawFromSideChain,
 				Payload: &outputpayload.Withdraw{GenesisBlockAddress: "side", SideChainTransactionHash: x, TargetData: []byte{1}}})
 		}
-		if h.Rng.Bool() { // a plain output among them
-			outs = append(outs, plain(h.Rng.Intn(4), 0))
-		}
+		outs = h.mixOutputs(outs, plain) // ordinary outputs before / between / after the withdraw outputs
 		tx, err = h.F.RawTx(ctypes.WithdrawFromSideChain, ver, &payload.WithdrawFromSideChain{}, ins, outs, tag)
 		si.tx3 = hashes
 		si.coq = fmt.Sprintf("(SWithdraw %d [] %s)", ver, hlist(h, hashes))
@@ -126,9 +183,10 @@ func (h *H) Special(kind string, set map[ctypes.OutPoint]uinfo, used map[ctypes.
 		var outs []*ctypes.Output
 		n := len(hashes)
 		for _, x := range hashes {
-			outs = append(outs, &ctypes.Output{AssetID: core.ELAAssetID, Value: rest / common.Fixed64(n), ProgramHash: h.F.Keys[h.Rng.Intn(4)].Hash, Type: ctypes.OTReturnSideChainDepositCoin,
+			outs = append(outs, &ctypes.Output{AssetID: core.ELAAssetID, Value: (rest - 100) / common.Fixed64(n), ProgramHash: h.F.Keys[h.Rng.Intn(4)].Hash, Type: ctypes.OTReturnSideChainDepositCoin,
 				Payload: &outputpayload.ReturnSideChainDeposit{GenesisBlockAddress: "side", DepositTransactionHash: x}})
 		}
+		outs = h.mixOutputs(outs, plain)
 		tx, err = h.F.RawTx(ctypes.ReturnSideChainDepositCoin, 0, &payload.ReturnSideChainDepositCoin{}, ins, outs, tag)
 		si.retdep = hashes
 		si.coq = fmt.Sprintf("(SRetDep %s)", hlist(h, hashes))
@@ -588,4 +646,22 @@ func (h *H) CorpusTypedPool() {
 		}
 	}
 	h.Process(h.BuildOn(h.tip(), h.F.PoolTxs(), "", fixture.BlockOpt{})) // mine the pool
+}
+
+// SpecialsOn builds several special transactions (fresh keys, nh hashes each)
+// on the view of block b, with distinct inputs.
+func (h *H) SpecialsOn(b *hblk, kinds []string, nh int) []interfaces.Transaction {
+	set, _, _ := h.view(b)
+	used := map[ctypes.OutPoint]bool{}
+	var txs []interfaces.Transaction
+	for _, k := range kinds {
+		var hs []common.Uint256
+		for i := 0; i < nh; i++ {
+			hs = append(hs, h.NewHash())
+		}
+		if tx := h.Special(k, set, used, hs); tx != nil {
+			txs = append(txs, tx)
+		}
+	}
+	return txs
 }
